@@ -14,14 +14,18 @@
 //	badreg    tables k <= 1 with every rejected registration (duplicate, unsupported method,
 //	          pattern not starting with '/') at every position; tables k = 2 with duplicates at
 //	          every later position and one bad method / bad pattern at the end; requests x P1.
-//	sets4     (thorough) every 4-element set in ascending order, then the other 23 insertion
-//	          orders one full pass at a time under the soft time box; requests x P1.
+//	tables4   (thorough) every ordered 4-route table in canonical labelling, under the soft time
+//	          box; requests x P1.
+//
+// Quick enumerates the larger tables of each family (3 routes in main, 2 routes elsewhere) only
+// in canonical labelling = one representative per class under renaming of the three route
+// methods and of the two literals a/b (see canon); smaller tables are enumerated in every
+// labelling. Thorough adds all the other labellings of those tables.
 package main
 
 import (
 	"fmt"
 	"os"
-	"runtime/pprof"
 	"sort"
 	"sync"
 	"sync/atomic"
@@ -60,12 +64,19 @@ func newPool(cfg *vlib.Config, deadline time.Time) *pool {
 // run executes the units on all workers; returns false if the soft deadline cut it short
 // (timeboxed phases only; other phases always complete).
 func (p *pool) run(units []unit, timeboxed bool) bool {
+	_, ok := p.runCount(units, timeboxed)
+	return ok
+}
+
+// runCount is run that also reports how many units were completed.
+func (p *pool) runCount(units []unit, timeboxed bool) (int, bool) {
 	if s := int(p.cfg.Seed); s != 0 && len(units) > 0 { // the seed only rotates enumeration order
 		k := ((s % len(units)) + len(units)) % len(units)
 		units = append(append([]unit(nil), units[k:]...), units[:k]...)
 	}
 	var next int64 = -1
 	var cut int32
+	var done int64
 	var wg sync.WaitGroup
 	for _, w := range p.workers {
 		wg.Add(1)
@@ -83,6 +94,7 @@ func (p *pool) run(units []unit, timeboxed bool) bool {
 				}
 				t0, e0 := w.c.Tables, w.c.Evals
 				units[i].run(w)
+				atomic.AddInt64(&done, 1)
 				fs := local[units[i].fam]
 				if fs == nil {
 					fs = &famStat{}
@@ -105,13 +117,15 @@ func (p *pool) run(units []unit, timeboxed bool) bool {
 		}(w)
 	}
 	wg.Wait()
-	return cut == 0
+	return int(done), cut == 0
 }
 
 // ---- unit generators ----
 
-// canon: the methods of the table appear in first-use order GET, POST, PUT (restricted growth),
-// i.e. the table is the representative of its class under renaming of the three route methods.
+// canon: the table is the representative of its class under renaming of the three route methods
+// and of the two literals: methods appear in first-use order GET, POST, PUT (restricted growth)
+// and the first literal segment met (routes in insertion order, segments left to right) is "a".
+// canon(table) implies canon(every prefix of the table).
 func canon(regs []regSpec) bool {
 	next := 0
 	for _, g := range regs {
@@ -120,6 +134,13 @@ func canon(regs []regSpec) bool {
 		}
 		if g.m == next {
 			next++
+		}
+	}
+	for _, g := range regs {
+		for _, s := range pats[g.p].segs {
+			if s != "" && !isVar(s) {
+				return s == "a"
+			}
 		}
 	}
 	return true
@@ -329,53 +350,26 @@ func unitsBadReg(sh share) []unit {
 	})...)
 }
 
-var perms4 [][4]int
-
-func buildPerms() {
-	var all [][4]int
-	var rec func(cur []int, used [4]bool)
-	rec = func(cur []int, used [4]bool) {
-		if len(cur) == 4 {
-			all = append(all, [4]int{cur[0], cur[1], cur[2], cur[3]})
+// unitsTables4: every ordered 4-route table in canonical method/literal labelling, one unit per
+// canonical 3-route prefix (thorough; time-boxed).
+func unitsTables4() []unit {
+	var us []unit
+	forTables(nil, 3, func(regs []regSpec) {
+		if len(regs) != 3 || !canon(regs) {
 			return
 		}
-		for i := 0; i < 4; i++ {
-			if !used[i] {
-				used[i] = true
-				rec(append(cur, i), used)
-				used[i] = false
-			}
+		prefix := make([]int, 3)
+		for i, g := range regs {
+			prefix[i] = g.p*nRouteMethods + g.m // index in pairs (pattern-major)
 		}
-	}
-	rec(nil, [4]bool{})
-	// identity first, reverse second, the rest in lexicographic order
-	perms4 = append(perms4, all[0], all[len(all)-1])
-	perms4 = append(perms4, all[1:len(all)-1]...)
-}
-
-func unitsSets4(pi int) []unit {
-	var us []unit
-	pm := perms4[pi]
-	fam := fmt.Sprintf("sets4-order%02d", pi)
-	for i0 := 0; i0 < len(pairs); i0++ {
-		for i1 := i0 + 1; i1 < len(pairs); i1++ {
-			i0, i1 := i0, i1
-			us = append(us, unit{fam, func(w *worker) {
-				var base, regs [4]regSpec
-				base[0], base[1] = pairs[i0], pairs[i1]
-				for i2 := i1 + 1; i2 < len(pairs); i2++ {
-					base[2] = pairs[i2]
-					for i3 := i2 + 1; i3 < len(pairs); i3++ {
-						base[3] = pairs[i3]
-						for k := 0; k < 4; k++ {
-							regs[k] = base[pm[k]]
-						}
-						w.runTable(regs[:], setP1, false)
-					}
+		us = append(us, unit{"tables4", func(w *worker) {
+			forTables(prefix, 4, func(t []regSpec) {
+				if len(t) == 4 && canon(t) {
+					w.runTable(t, setP1, false)
 				}
-			}})
-		}
-	}
+			})
+		}})
+	})
 	return us
 }
 
@@ -407,7 +401,6 @@ func main() {
 	cfg := vlib.ParseFlags("C09", "exploration")
 	buildUniverse()
 	buildPairs()
-	buildPerms()
 	r := vlib.NewReport(cfg)
 
 	if cfg.Replay != "" {
@@ -441,8 +434,8 @@ func main() {
 		os.Exit(1)
 	}
 
-	// soft time box: quick is sized to complete (the box is only a safety net), thorough stops
-	// adding 4-set insertion-order passes when it is reached.
+	// soft time box: quick is sized to complete (the box is only a safety net); in thorough the
+	// 4-route phase is expected to be cut by it on a loaded machine.
 	deadline := cfg.Deadline()
 	if cfg.BudgetS == 0 {
 		box := 200 * time.Second
@@ -454,12 +447,6 @@ func main() {
 		}
 	}
 	p := newPool(cfg, deadline)
-	if pf := os.Getenv("VERIF_C09_PROF"); pf != "" { // developer aid only
-		f, _ := os.Create(pf)
-		pprof.StartCPUProfile(f)
-		defer pprof.StopCPUProfile()
-		go func() { time.Sleep(time.Until(deadline) + 20*time.Second); pprof.StopCPUProfile(); os.Exit(3) }()
-	}
 
 	for _, s := range sampleRun() {
 		r.Sample(s)
@@ -479,12 +466,11 @@ func main() {
 	if cfg.Thorough() {
 		qMain.rest, qSmall.rest = true, true
 		phases = append(phases,
-			phase{"main (other method labellings of 3-route tables)", unitsMain(qMain)},
-			phase{"unclean (other method labellings of 2-route tables)", unitsUnclean(qSmall)},
-			phase{"badreg (other method labellings of 2-route tables)", unitsBadReg(qSmall)},
-			phase{"ext (other method labellings of 2-route tables)", unitsExt(qSmall, false)},
-			phase{"sets4 ascending insertion order", unitsSets4(0)},
-			phase{"ext-k3 (3-route tables, canonical method labelling)", unitsExt(share{kFull: 2}, true)},
+			phase{"main (other method/literal labellings of 3-route tables)", unitsMain(qMain)},
+			phase{"unclean (other method/literal labellings of 2-route tables)", unitsUnclean(qSmall)},
+			phase{"badreg (other method/literal labellings of 2-route tables)", unitsBadReg(qSmall)},
+			phase{"ext (other method/literal labellings of 2-route tables)", unitsExt(qSmall, false)},
+			phase{"ext-k3 (3-route tables, canonical method/literal labelling)", unitsExt(share{kFull: 2}, true)},
 		)
 	}
 	complete := true
@@ -496,19 +482,17 @@ func main() {
 		}
 	}
 	if cfg.Thorough() {
-		passes := 0
 		if complete {
-			passes = 1
-			for pi := 1; pi < len(perms4); pi++ {
-				if time.Now().After(deadline) || !p.run(unitsSets4(pi), true) {
-					r.NotExhaustive(fmt.Sprintf("4-route sets: %d of 24 insertion orders completed for all %d sets (order #0 ascending, #1 descending, then lexicographic); the next pass was cut by the soft time box", passes, choose4(len(pairs))))
-					break
-				}
-				passes++
+			us := unitsTables4()
+			done, ok := p.runCount(us, true)
+			r.SetExtra("tables4_units", map[string]int{"completed": done, "total": len(us)})
+			if !ok {
+				r.NotExhaustive(fmt.Sprintf("4-route tables (every insertion order, canonical method/literal labelling): %d of %d work units (one per canonical 3-route prefix, simplest first) completed before the soft time box", done, len(us)))
 			}
 		}
-		r.SetExtra("sets4_insertion_orders_completed", passes)
-		r.NotExhaustive("ext-k3 covers 3-route tables in canonical method labelling only (un-clean request spellings x other labellings not enumerated)")
+		r.Assume("symmetry reduction (thorough): 4-route tables, and 3-route tables under the EXT request spellings, are enumerated modulo renaming of the route methods GET/POST/PUT and of the literals a/b (one canonical representative per class, every insertion order); all tables with <= 3 routes are enumerated in every labelling under the P1 requests")
+	} else {
+		r.Assume("symmetry reduction (quick): 3-route tables of the main family and 2-route tables of the ext/unclean/badreg families are enumerated modulo renaming of the route methods GET/POST/PUT and of the literals a/b (one canonical representative per class, every insertion order); smaller tables are enumerated in every labelling; the thorough tier enumerates every labelling")
 	}
 
 	// merge
@@ -548,7 +532,7 @@ func main() {
 	}
 	r.SetExtra("family_sizes", map[string]int{
 		"route_methods": nRouteMethods, "request_methods": nReqMethods, "clean_patterns": len(cleanPats),
-		"method_pattern_pairs": len(pairs), "unclean_pattern_spellings": len(pats) - len(cleanPats) - len(badPats),
+		"method_pattern_pairs": len(pairs), "unclean_pattern_spellings": nUnclean,
 		"relative_patterns": nRelative, "unsupported_methods": len(allMethods) - firstBadMeth,
 		"request_paths_P1": len(setP1), "request_paths_EXT": len(setExt),
 	})
@@ -568,8 +552,5 @@ func main() {
 		desc += ": expected " + v.exp + "; observed " + v.got
 		r.Violation(v.class, desc, v.replay())
 	}
-	pprof.StopCPUProfile()
 	r.Finish()
 }
-
-func choose4(n int) int { return n * (n - 1) * (n - 2) * (n - 3) / 24 }
